@@ -793,6 +793,7 @@ fn observe(dir: &Path, side: &serde_json::Value, save_to: &Path) -> String {
         }
     }
     let _ = std::fs::remove_dir_all(save_to);
+    let _ = writeln!(o, "FAILSET {}", failset(&font, side, save_to.as_os_str().len()));
     match catch(|| font.save(save_to)) {
         Err(p) => {
             let _ = writeln!(o, "SAVE panic\nERRINFO {}", p);
@@ -855,6 +856,42 @@ fn deep_dir(base: &Path, total: usize) -> Option<PathBuf> {
     Some(p)
 }
 
+/// Which glif tasks of the coming save are going to fail, computed from the font state through the
+/// public API (the class predicate of finding raw-entry-panic-vs-io-error): for the first layer, in
+/// saving order, that has a failing task: how many tasks panic (a name in the file-name index whose
+/// glyph was removed through the raw map entry: `get_path` is Some, `contains_glyph` is false) and
+/// how many return an error (objectLibs key in the glyph lib; glif path longer than PATH_MAX under
+/// a target of `target_len` bytes).  Layers are saved one after the other and the first failing layer
+/// ends the save, so tasks of different kinds compete only inside that layer.
+fn failset(font: &Font, side: &serde_json::Value, target_len: usize) -> String {
+    let removed: Vec<(usize, String)> = side["script"]
+        .as_array()
+        .map(|ops| {
+            ops.iter()
+                .filter(|op| op[0].as_str() == Some("entry_remove"))
+                .map(|op| (op[1].as_u64().unwrap_or(0) as usize, op[2].as_str().unwrap_or("").to_string()))
+                .collect()
+        })
+        .unwrap_or_default();
+    for (li, l) in font.layers.iter().enumerate() {
+        let panics = removed.iter().filter(|(i, n)| *i == li && l.get_path(n).is_some() && !l.contains_glyph(n)).count();
+        let dirlen = l.path().as_os_str().len();
+        let mut errs = 0;
+        for g in l.iter() {
+            if let Some(p) = l.get_path(g.name()) {
+                let too_long = target_len + 1 + dirlen + 1 + p.as_os_str().len() > 4095;
+                if g.lib.contains_key("public.objectLibs") || too_long {
+                    errs += 1;
+                }
+            }
+        }
+        if panics + errs > 0 {
+            return format!("layer={} panics={} errs={}", li, panics, errs);
+        }
+    }
+    "none".to_string()
+}
+
 /// further saves of the same font in the same process:
 ///   "unpoison"  remove the objectLibs keys that made the first save fail
 ///   "deep"      save below a directory so deep that the glif of a long-named glyph exceeds
@@ -887,6 +924,7 @@ fn extra_saves(font: &mut Font, side: &serde_json::Value, save_to: &Path, o: &mu
                     }
                     Some(d) => {
                         let target = d.join("x.ufo");
+                        let _ = writeln!(o, "FAILSET {}", failset(font, side, target.as_os_str().len()));
                         let r = catch(|| font.save(&target));
                         let status = match &r {
                             Err(_) => "panic".to_string(),
@@ -906,6 +944,7 @@ fn extra_saves(font: &mut Font, side: &serde_json::Value, save_to: &Path, o: &mu
             _ => {
                 let target = save_to.with_file_name(format!("again{}", i));
                 let _ = std::fs::remove_dir_all(&target);
+                let _ = writeln!(o, "FAILSET {}", failset(font, side, target.as_os_str().len()));
                 match catch(|| font.save(&target)) {
                     Err(_) => {
                         let _ = writeln!(o, "STEP {} again panic", i);
